@@ -1,14 +1,17 @@
 import Skc.Lemmas.Kernels
 import Skc.Lemmas.Pen
 import Skc.Lemmas.PeltCorollaries
+import Skc.Lemmas.Congr
 import Mathlib.Algebra.Order.BigOperators.Group.List
 
 /-! # C12 — detections respect the model's symmetries: permutation, shift, scale, reversal
 
 Algebraic content of the symmetries, on the closed forms of the kernels (tied to the generated code
-by the L1 modules, see C01) and on the algorithm models.  Detector outputs are functions of the
-score tables, so invariance of the tables lifts to the detectors; that lift and the floating-point
-margins are exercised by the correspondence (pairs of runs on X and transformed X), not proved. -/
+by the L1 modules, see C01) and on the algorithm models.  Detector outputs depend on the
+scorer only through its values on admissible cuts inside `[0, n]` (`*_output_depends_on_admissible_*`
+below, from `Skc/Lemmas/Congr.lean`), so invariance of the score tables lifts to the detectors'
+outputs (`pelt_l2_shift_invariant`, `pelt_gauss_shift_invariant` are the composed statements for PELT);
+the floating-point margins are exercised by the correspondence (pairs of runs on X and transformed X). -/
 open Finset
 namespace Skc
 
@@ -94,6 +97,98 @@ theorem gauss_change_score_scale_invariant (a v v1 v2 n1 n2 : ℝ) (ha : 0 < a) 
     rw [show 2 * Real.pi * (a ^ 2 * w) = a ^ 2 * (2 * Real.pi * w) by ring]
     exact Real.log_mul ha2.ne' (by positivity)
   rw [e v hv, e v1 hv1, e v2 hv2]; ring
+
+/-! ### lift to the detectors -/
+
+/-- **C12, lift (PELT)**: cost tables that agree on every interval `[s, e)`, `s < e ≤ n`, give the same
+    scores and changepoints — for the code's policy and every other member of the family with an
+    extensional selector -/
+theorem pelt_output_depends_on_admissible_costs {α : Type} [Add α] [Neg α] [Zero α] [LT α] [DecidableLT α]
+    (cost cost' : Nat → Nat → α) (pen : α) (m n : Nat) (hm : 1 ≤ m) (hn : 2 * m ≤ n)
+    (h : ∀ s e, s < e → e ≤ n → cost s e = cost' s e) :
+    runPeltCode cost pen m n = runPeltCode cost' pen m n :=
+  runPelt_congr argminL prStrict pickExt_argminL pickMem_argminL cost cost' pen m (m - 1) n hm hn h
+
+/-- **C12, lift (CAPA / MVCAPA)**: penalised savings that agree on every interval inside `[0, n]` give
+    the same scores and anomalies -/
+theorem capa_output_depends_on_admissible_savings {α : Type} [AddCommGroup α] [LinearOrder α]
+    [IsOrderedAddMonoid α] (PS PS' : Nat → Nat → α) (PP PP' : Nat → α) (K : α) (m M delay n : Nat)
+    (hm : 1 ≤ m) (h : ∀ s e, s < e → e ≤ n → PS s e = PS' s e) (hp : ∀ t, t < n → PP t = PP' t) :
+    runCapa PS PP K m M delay n = runCapa PS' PP' K m M delay n :=
+  runCapaG_congr argmaxL prLt pickExt_argmaxL pickMem_argmaxL PS PS' PP PP' K m M delay n hm h hp
+
+/-- **C12, lift (moving window)**: change scores that agree on cuts `s < k < e ≤ n` give the same score
+    curve and hence the same changepoints -/
+theorem mw_output_depends_on_admissible_scores {α : Type} [LT α] [DecidableLT α] [Zero α]
+    (cs cs' : Nat → Nat → Nat → α) (n b : Nat) (hb : 1 ≤ b) (thr : α) (mdi : Nat)
+    (h : ∀ s k e, s < k → k < e → e ≤ n → cs s k e = cs' s k e) :
+    mwScores cs n b 0 = mwScores cs' n b 0 ∧
+      mwCpts (mwScores cs n b 0) n thr mdi = mwCpts (mwScores cs' n b 0) n thr mdi := by
+  have := mwScores_congr cs cs' n b hb h
+  exact ⟨this, by rw [this]⟩
+
+/-- **C12, lift (seeded binary segmentation)** -/
+theorem sbs_output_depends_on_admissible_scores {α : Type} [LT α] [DecidableLT α] [Zero α]
+    (cs cs' : Nat → Nat → Nat → α) (m n : Nat) (hm : 1 ≤ m) (thr : α)
+    (ivs : List (Nat × Nat)) (hivs : ∀ iv ∈ ivs, iv.2 ≤ n)
+    (h : ∀ s k e, s < k → k < e → e ≤ n → cs s k e = cs' s k e) :
+    runSbs cs m thr ivs = runSbs cs' m thr ivs :=
+  runSbs_congr cs cs' m n hm thr ivs hivs h
+
+/-- **C12, lift (circular binary segmentation)** -/
+theorem cbs_output_depends_on_admissible_scores {α : Type} [LT α] [DecidableLT α] [Zero α]
+    (las las' : Nat → Nat → Nat → Nat → α) (m n : Nat) (hm : 1 ≤ m) (thr : α)
+    (ivs : List (Nat × Nat)) (hivs : ∀ iv ∈ ivs, iv.2 ≤ n)
+    (h : ∀ s i j e, s < i → i < j → j < e → e ≤ n → las s i j e = las' s i j e) :
+    runCbs las m thr ivs = runCbs las' m thr ivs :=
+  runCbs_congr las las' m n hm thr ivs hivs h
+
+/-! ### composed statements: PELT on shifted data -/
+
+theorem segSum_shift (x : ℕ → ℝ) (c : ℝ) (s e : ℕ) (hse : s ≤ e) :
+    segSum (fun i => x i + c) s e = segSum x s e + ((e : ℝ) - s) * c := by
+  unfold segSum
+  rw [Finset.sum_add_distrib, Finset.sum_const, Nat.card_Ico, nsmul_eq_mul, Nat.cast_sub hse]
+
+theorem segSum_sq_shift (x : ℕ → ℝ) (c : ℝ) (s e : ℕ) (hse : s ≤ e) :
+    segSum (fun i => (x i + c) ^ 2) s e =
+      segSum (fun i => x i ^ 2) s e + 2 * c * segSum x s e + ((e : ℝ) - s) * c ^ 2 := by
+  unfold segSum
+  have : ∀ i, (x i + c) ^ 2 = x i ^ 2 + 2 * c * x i + c ^ 2 := fun i => by ring
+  simp only [this]
+  rw [Finset.sum_add_distrib, Finset.sum_add_distrib, Finset.sum_const, Nat.card_Ico, nsmul_eq_mul,
+    Nat.cast_sub hse, ← Finset.mul_sum]
+
+/-- the squared-error / Gaussian cost tables of a univariate series, from its rows -/
+noncomputable def l2Table (x : ℕ → ℝ) (s e : ℕ) : ℝ :=
+  CF.l2Optim (segSum x s e) (segSum (fun i => x i ^ 2) s e) ((e : ℝ) - s)
+noncomputable def gaussTable (x : ℕ → ℝ) (s e : ℕ) : ℝ :=
+  CF.gaussOptim (segSum x s e) (segSum (fun i => x i ^ 2) s e) ((e : ℝ) - s)
+
+/-- **C12, shift, detector level**: PELT with the squared-error cost returns the same scores and
+    changepoints on `x + c` as on `x` -/
+theorem pelt_l2_shift_invariant (x : ℕ → ℝ) (c pen : ℝ) (m n : ℕ) (hm : 1 ≤ m) (hn : 2 * m ≤ n) :
+    runPeltCode (l2Table (fun i => x i + c)) pen m n = runPeltCode (l2Table x) pen m n := by
+  apply pelt_output_depends_on_admissible_costs _ _ pen m n hm hn
+  intro s e hse _
+  have hne : ((e : ℝ) - s) ≠ 0 := by
+    have : (s : ℝ) < e := by exact_mod_cast hse
+    linarith
+  simp only [l2Table]
+  rw [segSum_shift x c s e hse.le, segSum_sq_shift x c s e hse.le]
+  exact l2Optim_shift_invariant _ _ _ c hne
+
+/-- … and so does PELT with the univariate Gaussian cost -/
+theorem pelt_gauss_shift_invariant (x : ℕ → ℝ) (c pen : ℝ) (m n : ℕ) (hm : 1 ≤ m) (hn : 2 * m ≤ n) :
+    runPeltCode (gaussTable (fun i => x i + c)) pen m n = runPeltCode (gaussTable x) pen m n := by
+  apply pelt_output_depends_on_admissible_costs _ _ pen m n hm hn
+  intro s e hse _
+  have hne : ((e : ℝ) - s) ≠ 0 := by
+    have : (s : ℝ) < e := by exact_mod_cast hse
+    linarith
+  simp only [gaussTable]
+  rw [segSum_shift x c s e hse.le, segSum_sq_shift x c s e hse.le]
+  exact gaussOptim_shift_invariant _ _ _ c hne
 
 /-! ### time reversal -/
 
